@@ -757,8 +757,23 @@ def tree_laws(ctx, rng, tree, m, n, npairs):
 # =====================================================================
 # building real trees from a model
 # =====================================================================
+_LabelledNode = None
+
+
 def build_real(ctx, m, rng, plain=False):
     """Create TreeNode objects bottom-up (sets .ref) and wrap them in a Tree."""
+    _Base = TreeNode
+    if not plain and rng.random() < 0.12:
+        ctx.op("tree_of_subclass_nodes")
+        global _LabelledNode
+        if _LabelledNode is None:
+            # a pure-Python subclass of TreeNode (a node that carries an extra attribute), as user code may define it
+            _LabelledNode = type("_LabelledNode", (TreeNode,), {"label": None})
+        _Base = _LabelledNode
+    return _build_real(ctx, m, rng, plain, _Base)
+
+
+def _build_real(ctx, m, rng, plain, TreeNode):
     for x in reversed(m_nodes(m)):
         ctx.op("TreeNode()")
         if x.children is None:
